@@ -297,7 +297,7 @@ static void disk_scan(rm_t *H, const char *dir, disk_t *d) {
     } else if (pc == PC_TABLE) {
       rc_table_t t;
       if (rc_table_decode(data, len, &t) != 0) {
-        snprintf(f->err, sizeof(f->err), "%s", t.err);
+        snprintf(f->err, sizeof(f->err), "%.118s", t.err);
       } else {
         size_t k;
         f->ok = 1;
@@ -340,12 +340,6 @@ static void disk_scan(rm_t *H, const char *dir, disk_t *d) {
     free(data);
   }
   dir_free(names, n);
-}
-
-static const dfile_t *disk_file(const disk_t *d, uint64_t num, int is_log) {
-  size_t i;
-  for (i = 0; i < d->nf; i++) if (d->f[i].num == num && d->f[i].is_log == is_log) return &d->f[i];
-  return NULL;
 }
 
 /* newest-by-sequence per row + structure statistics */
@@ -828,11 +822,16 @@ static void diagnose_get(rm_t *H, int row, const char *phase, int present, uint6
 }
 
 /* oracles (i) (ii) (iii) for the current phase */
-static void check_phase(rm_t *H, const char *phase) {
+static int check_phase(rm_t *H, const char *phase, int gate) {
   size_t nrows = H->m.nrows, i;
   char pf[400], pb[400];
-  int okf, okb, iter_reports = 0;
+  int okf, okb, iter_reports = 0, reached;
   diag_drop(H);
+  /* Nothing may be installed while lookups, scans and the diagnosis look at the database: a
+     compaction that starts now (e.g. triggered by the seeks of these very lookups) parks at its
+     first table creation until the phase is over.  Trivial moves can still happen; they only
+     move a table that overlaps no other level-0 table, which never affects a lookup. */
+  if (gate < 0) gate = iom_gate_arm(IOP_CREATE, PC_TABLE, 1);
   for (i = 0; i < nrows; i++) {
     int present, touched;
     uint64_t ver;
@@ -869,6 +868,10 @@ static void check_phase(rm_t *H, const char *phase) {
   }
   vh_count("phase_checks", 1);
   diag_drop(H);
+  reached = gate >= 0 && iom_gate_reached(gate);
+  iom_gate_clear();
+  ldb_verif_wait_idle(H->h.db);
+  return reached;
 }
 
 /* ------------------------------------------------------------------ */
@@ -1046,7 +1049,7 @@ static void repair_part(rm_t *H) {
   uint64_t ctr[8];
   size_t ntab = 0, nlog = 0;
   cfg_t c;
-  int gate;
+  int gate, parked;
 
   /* --- 3. metadata loss (+ optional loss of a data file) */
   apply_metadata_loss(H);
@@ -1216,12 +1219,10 @@ static void repair_part(rm_t *H) {
       layout_free(&l);
     }
   }
-  check_phase(H, "after-repair-open");
-  if (iom_gate_reached(gate)) vh_count("opens_with_parked_compaction", 1);
-  gate_off();
-  ldb_verif_wait_idle(H->h.db);
+  parked = check_phase(H, "after-repair-open", gate);
+  if (parked) vh_count("opens_with_parked_compaction", 1);
   check_file_numbers(H, "after-repair-open");
-  check_phase(H, "after-repair-compaction");
+  check_phase(H, "after-repair-compaction", -1);
 
   /* (iv) follow-up */
   followup_writes(H);
@@ -1233,7 +1234,7 @@ static void repair_part(rm_t *H) {
     default: structural(H, 1); break;
   }
   ldb_verif_wait_idle(H->h.db);
-  check_phase(H, "after-followup");
+  check_phase(H, "after-followup", -1);
   check_file_numbers(H, "after-followup");
   dbh_close(&H->h);
   rc = dbh_open(&H->h, 0);
@@ -1242,7 +1243,7 @@ static void repair_part(rm_t *H) {
     goto out;
   }
   ldb_verif_wait_idle(H->h.db);
-  check_phase(H, "after-reopen");
+  check_phase(H, "after-reopen", -1);
   check_file_numbers(H, "after-reopen");
   dbh_close(&H->h);
 
@@ -1436,6 +1437,7 @@ static void run_case(uint64_t seed, int caseidx, const char *base, const opts_t 
               H->reopens, H->snaps_taken, H->end_wal ? "wal" : "flushed", H->pre_sig, variant_name[H->variant],
               extra_name[H->extra], live, multi, mis, H->f4_keys, H->other_viol, vh_now() - t0);
   }
+  if (getenv("RM_DEBUG")) fprintf(stderr, "[rm] case %d wall %.2fs steps %d big %d\n", caseidx, vh_now() - t0, H->steps, H->allow_big);
   diag_drop(H);
   dbh_destroy(&H->h);
   vh_rm_rf(dir);
